@@ -66,9 +66,9 @@ var statusNames = []string{"unconfirmed", "conf1", "deep3", "coinbase-immature",
 // CoinSpec is one coin of a wallet state: what was received where and what
 // happened to it afterwards.
 type CoinSpec struct {
-	Type    int    `json:"type"`    // index into typeNames
-	Account uint32 `json:"account"` // 0 or 1
-	Status  int    `json:"status"`  // index into statusNames
+	Type    int    `json:"type"`            // index into typeNames
+	Account uint32 `json:"account"`         // 0 or 1
+	Status  int    `json:"status"`          // index into statusNames
 	Small   bool   `json:"small,omitempty"` // receives smallCoinAmount instead of the ordinary amount
 }
 
@@ -263,7 +263,7 @@ func buildWorld(simID int, specs []CoinSpec) *world {
 	var rolled, late []*wire.MsgTx
 	var spendsAtTip, lateSpends []*wire.MsgTx
 	earlySpends := map[int32][]*wire.MsgTx{} // unconfirmed spenders delivered BEFORE the block of that height
-	var spenderFirst [][2]*wire.MsgTx         // {spender, receipt}, both unconfirmed, delivered in this order
+	var spenderFirst [][2]*wire.MsgTx        // {spender, receipt}, both unconfirmed, delivered in this order
 	for i, sp := range specs {
 		addr, err := s.W.NewAddress(sp.Account, scopes[sp.Type])
 		if err != nil {
@@ -340,7 +340,7 @@ func buildWorld(simID int, specs []CoinSpec) *world {
 	txsAt[T] = append(txsAt[T], spendsAtTip...)
 	for h := int32(1); h <= T; h++ {
 		for _, tx := range earlySpends[h] {
-			s.SeenUnconfirmed(tx)
+			w.feedSpenderFirst(tx)
 		}
 		b := c.NewBlock(c.Tip, "a", txsAt[h])
 		s.Connect(b, wsim.StyleFiltered)
@@ -357,7 +357,7 @@ func buildWorld(simID int, specs []CoinSpec) *world {
 		s.SeenUnconfirmed(tx)
 	}
 	for _, p := range spenderFirst {
-		s.SeenUnconfirmed(p[0])
+		w.feedSpenderFirst(p[0])
 		s.SeenUnconfirmed(p[1])
 	}
 	for _, cn := range w.coins {
@@ -404,6 +404,21 @@ func buildWorld(simID int, specs []CoinSpec) *world {
 
 func (w *world) close() { w.s.Close() }
 
+// feedSpenderFirst delivers an unconfirmed spender whose spent output the
+// wallet must not know yet, and makes sure (sanity of the state construction,
+// not an oracle) that this is the order in which the wallet learned them.
+func (w *world) feedSpenderFirst(sp *wire.MsgTx) {
+	parent := sp.TxIn[0].PreviousOutPoint.Hash
+	if d, err := wallet.UnstableAPI(w.s.W).TxDetails(&parent); err != nil || d != nil {
+		ev.Fatal("state %s: the receipt %v is known before its spender was delivered (%v)", specsString(w.specs), parent, err)
+	}
+	w.s.SeenUnconfirmed(sp)
+	h := sp.TxHash()
+	if d, err := wallet.UnstableAPI(w.s.W).TxDetails(&h); err != nil || d == nil || d.Block.Height != -1 {
+		ev.Fatal("state %s: the wallet did not record the unconfirmed spender %v (%v)", specsString(w.specs), h, err)
+	}
+}
+
 // snapshot renders the transaction store's view (unspent outputs and unmined
 // transactions); it is used only to make sure that undoing a published send
 // restored the base state, never as an oracle.
@@ -432,6 +447,23 @@ func (w *world) snapshot() string {
 	}
 	sort.Strings(parts)
 	return strings.Join(parts, ",")
+}
+
+// storeOrder returns the outpoints in the order in which the store lists its
+// unspent outputs.
+func (w *world) storeOrder() []wire.OutPoint {
+	var out []wire.OutPoint
+	err := walletdb.View(w.s.W.Database(), func(tx walletdb.ReadTx) error {
+		us, err := w.s.W.TxStore.UnspentOutputs(tx.ReadBucket(wtxmgrKey))
+		for _, u := range us {
+			out = append(out, u.OutPoint)
+		}
+		return err
+	})
+	if err != nil {
+		ev.Fatal("storeOrder: %v", err)
+	}
+	return out
 }
 
 // undo removes the sends published since the base state (the way the wallet
